@@ -7,6 +7,7 @@ CONSTANTS
   BlockSizes = {1}
   Mults = {1, 2}
   Mode = "wand"
+  StoredBlock = 0
   NoPruneWithHook = FALSE
 INVARIANT PrunedEqualsExhaustive
 PROPERTY Progress
